@@ -228,7 +228,7 @@ def main(argv=None):
     if new_fail:
         ev['coverage']['failed_obligations'] = [f.to_json() if hasattr(f, 'to_json') else f for (_, f) in new_fail]
     os.makedirs(os.path.join(VERIF, 'evidence'), exist_ok=True)
-    json.dump(ev, open(os.path.join(VERIF, 'evidence', pid + '.json'), 'w'), indent=1)
+    if not os.environ.get('VX_NO_EVIDENCE'): json.dump(ev, open(os.path.join(VERIF, 'evidence', pid + '.json'), 'w'), indent=1)
     if soft_viol and not new_fail:
         os.makedirs(os.path.join(VERIF, 'replays'), exist_ok=True)
         for d in soft_viol:
@@ -237,7 +237,7 @@ def main(argv=None):
                            failing_input=d['case'], expected=d['expected'], observed=d['observed'], explanation=d['why']), open(path, 'w'), indent=1)
             print('VIOLATION property=%s replay=%s obligation=bounded-stand-in(%s) input=%s' % (pid, path, soft[0][1], json.dumps(d['case'].get('s', d['case'].get('script')))))
         ev['violations'] = len(soft_viol)
-        json.dump(ev, open(os.path.join(VERIF, 'evidence', pid + '.json'), 'w'), indent=1)
+        if not os.environ.get('VX_NO_EVIDENCE'): json.dump(ev, open(os.path.join(VERIF, 'evidence', pid + '.json'), 'w'), indent=1)
         return 1
     if new_fail:
         from vx import replay
@@ -258,6 +258,8 @@ def main(argv=None):
             if e_['outcome'] in ('missed', 'other_property_only', 'inapplicable'): undecided.append('self-test: sensitivity catalogue entry %s is %s' % (e_['id'], e_['outcome']))
         for e_ in extras.get('equivalent_edits') or []:
             if e_['outcome'] == 'false_alarm': undecided.append('self-test: behaviour-preserving edit %s fails %s' % (e_['id'], e_.get('obligations')))
+        for s_ in extras.get('seeded_regression') or []:
+            if s_.get('outcome') in ('not_reported', 'error'): undecided.append('self-test: seeded change %s is no longer reported (%s)' % (s_.get('id'), s_.get('line') or s_.get('detail') or 'exit %s' % s_.get('exit')))
         for l_ in extras.get('cross_unit_links') or []:
             if l_.get('status') != 'ok': undecided.append('self-test: cross-unit link %s: %s' % (l_.get('link'), l_.get('detail')))
         for k_ in extras.get('dependency_validation') or []:
